@@ -6,7 +6,7 @@
 From Coq Require Import NArith Bool List.
 From Gen Require Import SlotFlags.
 From C06 Require Old_C06.
-From C06 Require Import Model_C06 Proofs_C06 ProofsB_C06 ProofsC_C06 Deep_C06.
+From C06 Require Import Model_C06 Proofs_C06 ProofsB_C06 ProofsC_C06 Deep_C06 Super_C06.
 Import ListNotations.
 Local Open Scope N_scope.
 
@@ -113,6 +113,31 @@ Check ic_store_full_recheck_witness :
   transparent_mode RFull ft_delete w_delete /\ transparent_mode RFull ft_memo w_memo /\
   transparent_mode RFull ft_selfdata w_selfdata /\ transparent_mode RFull ft_setdata w_setdata.
 Print Assumptions ic_store_full_recheck_witness.
+
+(* `super.k = v` (SetPropertyByNameWithThis): the engine without fixes.d/C06-super-set-receiver.patch writes a cached data slot of
+   the super object (or of its prototype) whatever the receiver is; the step that does so is marked (first_this_data) *)
+Theorem super_set_receiver_refuted :
+  (xrefuted false w_super /\ first_this_data (xrun false RFull true [] init w_super) 0 = Some 5) /\
+  (xrefuted false w_super_proto /\ first_this_data (xrun false RFull true [] init w_super_proto) 0 = Some 4).
+Proof. exact super_set_receiver_refuted_lemma. Qed.
+Check super_set_receiver_refuted :
+  (xrefuted false w_super /\ first_this_data (xrun false RFull true [] init w_super) 0 = Some 5) /\
+  (xrefuted false w_super_proto /\ first_this_data (xrun false RFull true [] init w_super_proto) 0 = Some 4).
+Print Assumptions super_set_receiver_refuted.
+
+(* with the repair the same histories are transparent and no data write is taken for a foreign receiver *)
+Theorem super_set_receiver_fixed : xtransparent true w_super /\ xtransparent true w_super_proto.
+Proof. exact super_set_receiver_fixed_lemma. Qed.
+Check super_set_receiver_fixed : xtransparent true w_super /\ xtransparent true w_super_proto.
+Print Assumptions super_set_receiver_fixed.
+
+(* receiver = keyed object: both variants of the WithThis path are the plain set site covered by ic_transparent_* *)
+Theorem cached_set_this_plain : forall sr rc ic ft st n k o v,
+  cached_set_this sr rc ic ft st (SSet, n, k) o o v = cached_set rc ic ft st (SSet, n, k) o v.
+Proof. exact cached_set_this_plain_lemma. Qed.
+Check cached_set_this_plain : forall sr rc ic ft st n k o v,
+  cached_set_this sr rc ic ft st (SSet, n, k) o o v = cached_set rc ic ft st (SSet, n, k) o v.
+Print Assumptions cached_set_this_plain.
 
 (* the five histories that refuted transparency before the first three fixes are transparent now *)
 Theorem fixed_witness :
